@@ -15,6 +15,7 @@ import (
 	"strconv"
 	"strings"
 	"sync"
+	"syscall"
 	"time"
 
 	"verif/internal/rewrite"
@@ -178,13 +179,35 @@ func prepare() (string, error) {
 	hash := sourceHash()
 	work := filepath.Join(verifDir, ".work", hash)
 	overlayPath := filepath.Join(work, "overlay.json")
-	if _, err := os.Stat(filepath.Join(work, "ok")); err == nil {
+	okPath := filepath.Join(work, "ok")
+	if _, err := os.Stat(okPath); err == nil {
+		now := time.Now()
+		os.Chtimes(okPath, now, now) // in use
 		return work, nil
 	}
-	// drop stale work dirs (keep disk use bounded)
+	// several vcheck processes may run at the same time: one of them instruments, the others wait
+	os.MkdirAll(filepath.Join(verifDir, ".work"), 0o755)
+	if lf, err := os.OpenFile(filepath.Join(verifDir, ".work", "lock"), os.O_CREATE|os.O_RDWR, 0o644); err == nil {
+		syscall.Flock(int(lf.Fd()), syscall.LOCK_EX)
+		defer func() { syscall.Flock(int(lf.Fd()), syscall.LOCK_UN); lf.Close() }()
+		if _, err := os.Stat(okPath); err == nil {
+			return work, nil
+		}
+	}
+	// drop stale work dirs (keep disk use bounded); a directory used in the last hours may belong to a
+	// running check of another tree state and is left alone
 	if ents, err := os.ReadDir(filepath.Join(verifDir, ".work")); err == nil {
 		for _, e := range ents {
-			if e.Name() != hash {
+			if e.Name() == hash || !e.IsDir() {
+				continue
+			}
+			last := time.Time{}
+			if st, err := os.Stat(filepath.Join(verifDir, ".work", e.Name(), "ok")); err == nil {
+				last = st.ModTime()
+			} else if di, err := e.Info(); err == nil {
+				last = di.ModTime() // being built, or the output directory of a running check
+			}
+			if time.Since(last) > 3*time.Hour {
 				os.RemoveAll(filepath.Join(verifDir, ".work", e.Name()))
 			}
 		}
